@@ -457,6 +457,52 @@ def run(ctx):
                 violations.append({"key": None, "what": "step count exceeds the quadratic bound 100*(n+1)^2+5000 (executed source lines)", "family": label,
                                    "size_parameter": k, "bytes": n, "steps": steps})
                 break
+    # (7) every octet value in every text position of a message, delivered to a session: answered (messages or ProtocolError) within the CPU budget
+    # (a decoding step that stops advancing on some octet shows up here, whatever loop it sits in)
+    import guard
+    import p_recv as PR_
+
+    def tlv_(tag, content):
+        return bytes([tag]) + ber.enc_len(len(content)) + content
+
+    def text_cases(o):
+        x = b"ab" + bytes([o]) + b"cd" + bytes([o, o])
+        res = lambda diag=b"", mdn=b"", ref=None: tlv_(0x0A, b"\0") + tlv_(4, mdn) + tlv_(4, diag) + (b"" if ref is None else tlv_(0xA3, tlv_(4, ref)))
+        yield "client_mid", "ExtendedResponse.diagnosticMessage", tlv_(0x30, tlv_(2, b"\1") + tlv_(0x78, res(diag=x)))
+        yield "client_mid", "ExtendedResponse.matchedDN", tlv_(0x30, tlv_(2, b"\1") + tlv_(0x78, res(mdn=x)))
+        yield "client_mid", "ExtendedResponse.referral", tlv_(0x30, tlv_(2, b"\1") + tlv_(0x78, res(ref=x)))
+        yield "client_mid", "ExtendedResponse.responseName", tlv_(0x30, tlv_(2, b"\1") + tlv_(0x78, res() + tlv_(0x8A, x)))
+        yield "client_mid", "SearchResultDone.diagnosticMessage", tlv_(0x30, tlv_(2, b"\2") + tlv_(0x65, res(diag=x)))
+        yield "client_mid", "SearchResultEntry.objectName/type", tlv_(0x30, tlv_(2, b"\2") + tlv_(0x64, tlv_(4, x) + tlv_(0x30, tlv_(0x30, tlv_(4, x) + tlv_(0x31, tlv_(4, x))))))
+        yield "client_mid", "SearchResultReference.uri", tlv_(0x30, tlv_(2, b"\2") + tlv_(0x73, tlv_(4, x)))
+        yield "client_mid", "control.type", tlv_(0x30, tlv_(2, b"\1") + tlv_(0x78, res()) + tlv_(0xA0, tlv_(0x30, tlv_(4, x))))
+        yield "server_fresh", "BindRequest.name/simple", tlv_(0x30, tlv_(2, b"\1") + tlv_(0x60, tlv_(2, b"\3") + tlv_(4, x) + tlv_(0x80, x)))
+        yield "server_fresh", "BindRequest.sasl.mechanism", tlv_(0x30, tlv_(2, b"\1") + tlv_(0x60, tlv_(2, b"\3") + tlv_(4, b"") + tlv_(0xA3, tlv_(4, x))))
+        yield "server_fresh", "SearchRequest.base/filter/attributes", tlv_(0x30, tlv_(2, b"\1") + tlv_(0x63, tlv_(4, x) + tlv_(0x0A, b"\0") + tlv_(0x0A, b"\0")
+                                                                           + tlv_(2, b"\0") + tlv_(2, b"\0") + tlv_(1, b"\0")
+                                                                           + tlv_(0xA0, tlv_(0x87, x) + tlv_(0xA3, tlv_(4, x) + tlv_(4, x))
+                                                                                  + tlv_(0xA9, tlv_(0x81, x) + tlv_(0x82, x) + tlv_(0x83, x)))
+                                                                           + tlv_(0x30, tlv_(4, x))))
+        yield "server_fresh", "ExtendedRequest.requestName", tlv_(0x30, tlv_(2, b"\1") + tlv_(0x77, tlv_(0x80, x)))
+
+    stuck = 0
+    for o in range(256):
+        for prep, where, data in text_cases(o):
+            evaluations += 1
+            hist["text-octets:" + prep] += 1
+            im_, s_ = PR_.fresh(prep)
+            try:
+                guard.guarded(lambda: s_.receive(data), 2.0)
+            except guard.Hang:
+                stuck += 1
+                violations.append({"key": None, "what": "receive() of a small message did not return within 2 s of CPU: decoding stops advancing on an octet in a "
+                                   "text field (cost not bounded by any polynomial of the input size)", "where": where, "octet": o, "prep": prep, "bytes": data.hex()})
+            except BaseException:  # noqa: BLE001
+                pass
+            if stuck >= 3:
+                break
+        if stuck >= 3:
+            break
     # (5) the step-counting model of the schema from_string post-processing (Model/SchemaCost.lean, Props/C18Schema.lean) against the real code:
     # same acceptance, executed source lines of schema.py <= model's own steps + 60 on growing families (harness/p_schema_steps.py)
     if ctx.driver_ok:
